@@ -44,12 +44,12 @@ theorem build_call_inv2 (name pfx : String) (args : Ast)
       have fin : ∀ (x : Except BErr BOut), x = .ok o →
           (x = do
             let ao ← build regexOk limit snt sdf args { take := fnUsed name args.argList.length }
-              { depth := st.depth + 1, firstInput := st.firstInput }
+              { depth := st.depth + 1, firstInput := st.firstInput, predInput := st.predInput }
             .ok ⟨Plan.func name .nil ao.q,
               if (fnUsed name args.argList.length == 0) = true then { } else ao.props,
               build.leave ao.st⟩) →
           ∃ ao, build regexOk limit snt sdf args { take := fnUsed name args.argList.length }
-            { depth := st.depth + 1, firstInput := st.firstInput } = Except.ok ao ∧
+            { depth := st.depth + 1, firstInput := st.firstInput, predInput := st.predInput } = Except.ok ao ∧
             o.q = Plan.func name Plan.nil ao.q ∧
             o.props = (if fnUsed name args.argList.length == 0 then {} else ao.props) := by
         intro x hx hx2
